@@ -1,13 +1,23 @@
 import AeicModel
 open Lean Aeic Aeic.Wire
 
+/-- area prefix ↦ handler; ops are named `<area>.<name>` -/
+def handlers : List (String × (String → Json → Except String Json)) := [
+]
+
 def dispatch (op : String) (j : Json) : Except String Json :=
   match op with
   | "ping" => pure (obj [("pong", fieldD j "x" Json.null)])
   | "lit" => do
       let m ← getInt (← field j "m"); let e ← getNat (← field j "e")
       pure (putF (Lit.dec m e : Float))
-  | _ => throw s!"unknown op {op}"
+  | _ =>
+    match op.splitOn "." with
+    | area :: rest@(_ :: _) =>
+      match handlers.lookup area with
+      | some h => h (".".intercalate rest) j
+      | none => throw s!"unknown area {area}"
+    | _ => throw s!"unknown op {op}"
 
 def handleLine (line : String) : String :=
   match Json.parse line with
